@@ -5,5 +5,5 @@ P=$1; shift
 S=$(mktemp -d /tmp/vpseed-XXXX)
 git -C /repo archive HEAD | tar -x -C $S
 (cd $S && git init -q . && git apply --whitespace=nowarn $P) || { echo "PATCH DOES NOT APPLY"; rm -rf $S; exit 3; }
-VP_NO_REPLAY=${VP_NO_REPLAY:-1} /verif/check --all --repo $S "$@" 2>&1 | grep -E "^C[0-9]+ rc=|UNDECIDED" | cut -c1-260
+VP_NO_REPLAY=${VP_NO_REPLAY:-1} $(cd $(dirname $0)/.. && pwd)/check --all --repo $S "$@" 2>&1 | grep -E "^C[0-9]+ rc=|UNDECIDED" | cut -c1-260
 rm -rf $S
